@@ -51,8 +51,29 @@ class Model:
         self.reads: list = []
         self.written: list = []
 
+        def bound(cname, mname, args, kwargs, fallback):
+            """the arguments of a collaborator in the order of its parameters, whether they were passed by position or by name"""
+            try:
+                fn = src.cls(cname).methods[mname].node
+                names = [a.arg for a in fn.args.posonlyargs + fn.args.args]
+                if names and names[0] in ('cls', 'self'):
+                    names = names[1:]
+            except Exception:
+                names = list(fallback)
+            out = list(args)
+            for n in names[len(out):]:
+                if n in kwargs:
+                    out.append(kwargs[n])
+                else:
+                    break
+            extra = [k for k in kwargs if k not in names]
+            if extra:
+                raise AbsRaise('TypeError', f'{cname}.{mname}() got an unexpected keyword argument {extra[0]!r}')
+            return out
+
         def excel_parse(args, kwargs):
-            path = args[0] if args else kwargs.get('excel_file_path', AV('none'))
+            args = bound('Excel', 'parse', args, kwargs, ['path'])
+            path = args[0] if args else AV('none')
             if path.kind == 'none' or not isinstance(path.val, str):
                 raise AbsRaise('TypeError', 'expected str, bytes or os.PathLike object')
             wb, flaw = WORKBOOKS[path.val]
@@ -79,6 +100,10 @@ class Model:
 
         def translate(entry):
             def f(args, kwargs):
+                args = bound('CellTranslator', 'translate' if entry else 'translate_file', args, kwargs,
+                             ['cell', 'excel', 'context'] if entry else ['excel', 'context'])
+                if len(args) < (3 if entry else 2):
+                    raise AbsRaise('TypeError', 'missing arguments of the translator')
                 cell = args[0] if entry else None
                 excel = args[1] if entry else args[0]
                 ctx = args[2] if entry else args[1]
@@ -90,6 +115,9 @@ class Model:
             return f
 
         def opener(args, kwargs):
+            mode = args[1] if len(args) > 1 else kwargs.get('mode', const_av('r'))
+            if not (isinstance(mode.val, str) and 'w' in mode.val):
+                raise AbsRaise('FileNotFoundError', 'the translation file is opened for reading')
             fobj = ev.new_obj('file', {})
             at = ev.obj_attrs(fobj)
             at['write'] = AV('func', val=('native', lambda a: (self.written.append(a[0]), AV('none'))[1]))
